@@ -1,12 +1,124 @@
 /-
 Prelude.Libm — hand ports of libm 0.2.16 `log`, `log1p`, `log2` (musl/FreeBSD ports; not correctly rounded).
+The same sequence of binary64 operations and bit manipulations as src/math/{log,log1p,log2}.rs.
 They only seed Newton iterations in the crate.  Tied to the real functions by the correspondence run only.
 -/
 import TFV.Prelude.Classes
 
 namespace Libm
--- placeholders until the ports land (see DESIGN §2.3); every function that reaches them is excluded from claims
-def log (x : F64) : F64 := x
-def log1p (x : F64) : F64 := x
-def log2 (x : F64) : F64 := x
+open F64
+
+def LN2_HI : F64 := f64lit 0x3fe62e42fee00000
+def LN2_LO : F64 := f64lit 0x3dea39ef35793c76
+def LG1 : F64 := f64lit 0x3fe5555555555593
+def LG2 : F64 := f64lit 0x3fd999999997fa04
+def LG3 : F64 := f64lit 0x3fd2492494229359
+def LG4 : F64 := f64lit 0x3fcc71c51d8e78af
+def LG5 : F64 := f64lit 0x3fc7466496cb03de
+def LG6 : F64 := f64lit 0x3fc39a09d078c69f
+def LG7 : F64 := f64lit 0x3fc2f112df3e5244
+def IVLN2HI : F64 := f64lit 0x3ff7154765200000
+def IVLN2LO : F64 := f64lit 0x3de705fc2eefa200
+def x1p54 : F64 := f64lit 0x4350000000000000
+def c0 : F64 := f64lit 0x0000000000000000
+def c1 : F64 := f64lit 0x3ff0000000000000
+def cm1 : F64 := f64lit 0xbff0000000000000
+def c2 : F64 := f64lit 0x4000000000000000
+def chalf : F64 := f64lit 0x3fe0000000000000
+
+/-- the polynomial kernel shared by the three functions: returns (hfsq, s, r) for f -/
+def kernel (f : F64) : F64 × F64 × F64 :=
+  let hfsq := mul (mul chalf f) f
+  let s := div f (add c2 f)
+  let z := mul s s
+  let w := mul z z
+  let t1 := mul w (add LG2 (mul w (add LG4 (mul w LG6))))
+  let t2 := mul z (add LG1 (mul w (add LG3 (mul w (add LG5 (mul w LG7))))))
+  (hfsq, s, add t2 t1)
+
+/-- reduce into [sqrt(2)/2, sqrt(2)]: returns (k increment, reduced x) from the bit pattern ui -/
+def reduce (ui : Nat) : Int × F64 :=
+  let hx := ui / 2^32 + (0x3ff00000 - 0x3fe6a09e)
+  let k : Int := ((hx / 2^20 : Nat) : Int) - 0x3ff
+  let hx' := hx % 2^20 + 0x3fe6a09e
+  (k, from_bits_nat (hx' * 2^32 + ui % 2^32))
+
+def log (x0 : F64) : F64 :=
+  let ui0 := x0.to_bits_nat
+  let hx0 := ui0 / 2^32
+  if hx0 < 0x00100000 ∨ hx0 / 2^31 ≠ 0 then
+    if (ui0 * 2) % 2^64 = 0 then div cm1 (mul x0 x0)
+    else if hx0 / 2^31 ≠ 0 then div (sub x0 x0) c0
+    else
+      let x := mul x0 x1p54
+      go (-54) x.to_bits_nat
+  else if hx0 ≥ 0x7ff00000 then x0
+  else if hx0 = 0x3ff00000 ∧ ui0 % 2^32 = 0 then c0
+  else go 0 ui0
+where
+  go (k0 : Int) (ui : Nat) : F64 :=
+    let (dkI, x) := reduce ui
+    let k := k0 + dkI
+    let f := sub x c1
+    let (hfsq, s, r) := kernel f
+    let dk := F64.ofInt k
+    add (add (sub (add (mul s (add hfsq r)) (mul dk LN2_LO)) hfsq) f) (mul dk LN2_HI)
+
+def log2 (x0 : F64) : F64 :=
+  let ui0 := x0.to_bits_nat
+  let hx0 := ui0 / 2^32
+  if hx0 < 0x00100000 ∨ hx0 / 2^31 > 0 then
+    if (ui0 * 2) % 2^64 = 0 then div cm1 (mul x0 x0)
+    else if hx0 / 2^31 > 0 then div (sub x0 x0) c0
+    else
+      let x := mul x0 x1p54
+      go (-54) x.to_bits_nat
+  else if hx0 ≥ 0x7ff00000 then x0
+  else if hx0 = 0x3ff00000 ∧ ui0 % 2^32 = 0 then c0
+  else go 0 ui0
+where
+  go (k0 : Int) (ui : Nat) : F64 :=
+    let (dkI, x) := reduce ui
+    let k := k0 + dkI
+    let f := sub x c1
+    let (hfsq, s, r) := kernel f
+    let hi0 := sub f hfsq
+    let hi := from_bits_nat (hi0.to_bits_nat / 2^32 * 2^32)
+    let lo := add (sub (sub f hi) hfsq) (mul s (add hfsq r))
+    let val_hi := mul hi IVLN2HI
+    let val_lo := add (mul (add lo hi) IVLN2LO) (mul lo IVLN2HI)
+    let y := F64.ofInt k
+    let w := add y val_hi
+    let val_lo := add val_lo (add (sub y w) val_hi)
+    add val_lo w
+
+def log1p (x : F64) : F64 :=
+  let ui0 := x.to_bits_nat
+  let hx := ui0 / 2^32
+  if hx < 0x3fda827a ∨ hx / 2^31 > 0 then
+    if hx ≥ 0xbff00000 then
+      if F64.eq x cm1 then div x c0 else div (sub x x) c0
+    else if (hx * 2) % 2^32 < (0x3ca00000 * 2) % 2^32 then x
+    else if hx ≤ 0xbfd2bec4 then tail 0 c0 x
+    else big
+  else if hx ≥ 0x7ff00000 then x
+  else big
+where
+  tail (k : Int) (c f : F64) : F64 :=
+    let (hfsq, s, r) := kernel f
+    let dk := F64.ofInt k
+    add (add (sub (add (mul s (add hfsq r)) (add (mul dk LN2_LO) c)) hfsq) f) (mul dk LN2_HI)
+  big : F64 :=
+    let u := add c1 x
+    let ui := u.to_bits_nat
+    let hu := ui / 2^32 + (0x3ff00000 - 0x3fe6a09e)
+    let k : Int := ((hu / 2^20 : Nat) : Int) - 0x3ff
+    let c :=
+      if k < 54 then
+        div (if k ≥ 2 then sub c1 (sub u x) else sub x (sub u c1)) u
+      else c0
+    let hu' := hu % 2^20 + 0x3fe6a09e
+    let f := sub (from_bits_nat (hu' * 2^32 + ui % 2^32)) c1
+    tail k c f
+
 end Libm
